@@ -206,12 +206,13 @@ def run(ctx: Ctx) -> int:
                     tg = targets[i - 1]
                     recs.append((e["prio"], e["weight"], tg["port"], _txt(tg["dotted"] if e["dot"] else tg["plain"])))
                 dom = DOMAINS[k % len(DOMAINS)]
-                for tag, d in (("n", None), ("d", dom)):
+                # "no domain given" is None or the empty string (what a blob protected offline carries)
+                for tag, d in (("n", None), ("d", dom)) + ((("e", ""),) if k % 3 == 0 else ()):
                     rid = f"{k}{tag}"
                     rows.append(replay_one(taps, loop, dnsmod, rid, recs, d))
                     accept[rid] = (recs, acc)
                     ctx.distinct((tuple(codes), d is None))
-                ctx.count(4)
+                ctx.count(4 + (2 if k % 3 == 0 else 0))
         finally:
             loop.close()
 
